@@ -8,4 +8,5 @@ Extraction "../oracle/c11/model.ml"
   go_decode_header go_reencode_header header_signing_bytes_any
   go_decode_receipt go_reencode_receipt go_unmarshal_receipt go_marshal_receipt
   go_decode_block go_decode_block_raw go_reencode_block
-  tx_has_nil_list block_has_nil_list norm_tx norm_block decode encode c_trf_gen c_header_gen dec_exact lenN.
+  tx_has_nil_list block_has_nil_list norm_tx norm_block decode encode c_trf_gen c_header_gen dec_exact lenN
+  go_tx_size_cached go_block_size_cached go_tx_size_fresh go_block_size_fresh intrinsic_gas intrinsic_gas_math root_pairs.
